@@ -6,6 +6,8 @@
 #include "vsched.h"
 #include "platform.h"
 #include <semaphore.h>
+#include <signal.h>
+#include <sys/time.h>
 #include <stdio.h>
 #include <stdlib.h>
 #include <string.h>
@@ -94,11 +96,30 @@ owner_of(void* a)
     return &L[NL++].owner;
 }
 
+// A thread that spins in the code under test without ever reaching a scheduling point (no lock, wait, sleep, device call)
+// cannot be preempted by this scheduler: a CPU-time watchdog, re-armed at every scheduling decision, reports it as a hang.
+#define SPIN_SECONDS 3
+static void
+on_spin(int sig)
+{
+    (void)sig;
+    if (on_hang)
+        on_hang("spin");
+    _exit(5);
+}
+static void
+arm_spin_watchdog(void)
+{
+    struct itimerval it = { { 0, 0 }, { SPIN_SECONDS, 0 } };
+    setitimer(ITIMER_VIRTUAL, &it, 0);
+}
+
 void
 vs_init(const struct vs_config* cfg, vs_hang_fn hang)
 {
     C = *cfg;
     on_hang = hang;
+    signal(SIGVTALRM, on_spin);
     if (C.budget <= 0)
         C.budget = 200000;
     if (C.fair_budget <= 0)
@@ -201,6 +222,8 @@ pick(void)
         }
     }
     ++steps;
+    if ((steps & 63) == 1)
+        arm_spin_watchdog();
     if (steps > C.budget + C.fair_budget) {
         if (on_hang)
             on_hang("livelock");
